@@ -92,7 +92,7 @@ def write_evidence(ctx, prop, lean_info, wall, nviol):
         "harness_build_s": lean_info.get("harness_s"),
         "notes": ctx.notes,
     }
-    cov.update(ctx.extra)
+    cov.update({k: v for k, v in ctx.extra.items() if not k.startswith("_")})
     ev = {
         "property_id": ctx.pid, "tier": ctx.tier, "seed": ctx.seed, "level": "proof",
         "coverage": cov,
